@@ -31,6 +31,12 @@ def _mutants():
         meta = json.load(open(os.path.join(d, 'meta.json')))
         out.append({'id': 'seeded/' + name, 'patch': os.path.join(d, 'patch.diff'), 'reverse': False,
                     'properties': meta.get('checks') or [meta['property']]})
+  bdir = os.path.join(sdir, 'benign')
+  if os.path.isdir(bdir):
+    which = json.load(open(os.path.join(bdir, 'checks.json')))
+    for name in sorted(which):
+      out.append({'id': 'benign/' + name, 'patch': os.path.join(bdir, name + '.diff'), 'reverse': False,
+                  'properties': which[name], 'benign': True})
   kf = json.load(open(os.path.join(boot.VERIF_ROOT, 'known_findings.json')))['findings']
   for f in kf:
     if f.get('status') == 'fixed' and f.get('commit'):
@@ -96,6 +102,8 @@ def main(argv):
         viol = [l for l in p.stdout.splitlines() if l.startswith('VIOLATION')]
         clause = [l.strip() for l in p.stdout.splitlines() if l.strip().startswith('clause=')]
         status = 'CAUGHT' if (p.returncode == 1 and viol) else ('HARNESS-ERROR' if p.returncode == 2 else 'MISSED')
+        if m.get('benign'):
+          status = {'CAUGHT': 'FALSE-ALARM', 'MISSED': 'QUIET', 'HARNESS-ERROR': 'HARNESS-ERROR'}[status]
         rows.append((m['id'], prop, status, time.time() - t0, clause[0][:150] if clause else ''))
         print('mutant %-55s %-4s %-13s %6.1fs %s' % rows[-1])
         sys.stdout.flush()
@@ -103,7 +111,9 @@ def main(argv):
       shutil.rmtree(dst, ignore_errors=True)
       shutil.rmtree(evd, ignore_errors=True)
   caught = sum(1 for r in rows if r[2] == 'CAUGHT')
-  print(f'mutants: {caught}/{len(rows)} (mutant, check) pairs caught')
+  quiet = sum(1 for r in rows if r[2] == 'QUIET')
+  false_alarms = sum(1 for r in rows if r[2] == 'FALSE-ALARM')
+  print(f'mutants: {caught} breaking (change, check) pairs caught; benign refactors: {quiet} quiet, {false_alarms} false alarms; {len(rows)} pairs in total')
   if not want:
     path = os.path.join(boot.VERIF_ROOT, 'seeded', 'SENSITIVITY.md')
     with open(path, 'w') as f:
